@@ -102,6 +102,13 @@ class KillsItsLoader:
         return (_die_at_once, ())
 
 
+def square_or_die(x):
+    """x*x, but a negative input ends the worker (the target raises)"""
+    if x < 0:
+        raise ValueError('negative input')
+    return x * x
+
+
 def slow_square(x):
     import time
     time.sleep(0.15)
